@@ -1,6 +1,7 @@
 """C14 Resource exhaustion"""
 import elin
 import eoom
+import eevent
 
 LEVEL = "E-LIN restricted to the error paths"
 CRATES = ("oxidd_rules_bdd", "oxidd_rules_zbdd", "oxidd_rules_mtbdd", "oxidd_rules_tdd", "oxidd_dump",
@@ -19,4 +20,8 @@ def run(ctx):
                 "terminals; std::process::abort is reachable only through the reviewed sites (AbortOnDrop, rc overflow "
                 "guards). The two by-design abort-on-OOM sites are known findings.")
     eoom.run(ctx, F)
+    ctx.explain("E-EVENT.gc-order: terminals are swept after all inner-node levels, so that one collection after dropping "
+                "the handles of a failed operation frees the terminal slots the retry needs.")
+    eevent.check_gc_sweep_order(ctx, F, "oxidd_manager_index")
+    eevent.check_gc_sweep_order(ctx, F, "oxidd_manager_pointer")
     ctx.not_decided = "validity of handles after failure, success on retry, panics other than AllocResult unwraps"
